@@ -110,7 +110,8 @@ fn gen_sources(ctx: &mut Ctx) {
     for (mt, ns) in [(-1i64, 999_999_999u32), (-1, 0), (-2, 1), (-86_400, 0), (-2_147_483_648, 0), (0, 0), (0, 999_999_999), (1, 0),
                      (2_147_483_647, 5), (2_147_483_648, 0), (4_294_967_295, 0), (4_294_967_295, 999_999_999), (4_294_967_296, 0),
                      (4_294_967_296, 1), (4_294_967_297, 0), (10_000_000_000, 0), (15_032_385_535, 0)] {
-        for (mode, sd) in [("i644", ""), ("33261", " sd=1600000000"), ("i4755", " sd=0 sdlast")] {
+        // (`i<perm>`: the permission word in DECIMAL, like every number of the token: 420 = 0o644, 2541 = 0o4755)
+        for (mode, sd) in [("i420", ""), ("33261", " sd=1600000000"), ("i2541", " sd=0 sdlast")] {
             k += 1;
             if k % ctx.shard.1 != ctx.shard.0 { continue; }
             let f = format!("f={}:{}:{}:{}:doc:~:-:{}:{}:7:~:ns={}", h("/usr/share/x"), mode, root, root, mt, k, ns);
@@ -119,7 +120,7 @@ fn gen_sources(ctx: &mut Ctx) {
         }
     }
     for kind in ["dir", "missing"] {
-        for mode in ["i755", "33188", "f33188"] {
+        for mode in ["i493", "33188", "f33188"] {
             k += 1;
             if k % ctx.shard.1 != ctx.shard.0 { continue; }
             let f = format!("f={}:{}:{}:{}:0:~:-:1500000000:{}:3:~:k={}", h("/opt/x"), mode, root, root, k, kind);
@@ -135,7 +136,7 @@ fn gen_sources(ctx: &mut Ctx) {
         ctx.req(&format!("build {}{} {}", head, c, good));
     }
     // bare FileOptions::new(dest): every default is read back
-    for (i, mode) in ["i644", "i4755", "i0", "i7777", "i1600"].iter().enumerate() {
+    for (i, mode) in ["i420", "i2541", "i0", "i4095", "i896", "i1023", "i512"].iter().enumerate() {
         k += 1;
         if k % ctx.shard.1 != ctx.shard.0 { continue; }
         ctx.req(&format!("build {} c=none f={}:{}:{}:{}:0:~:-:1234567890:{}:9:~", head, h("/bare"), mode, root, root, 2 * i));
